@@ -363,10 +363,17 @@ pub struct Req {
   pub q: Q,
   pub fields: Option<Vec<String>>,
   pub fuzzy: Option<Fz>,
+  /// send a root query_string without `fields` in the legacy plain-string form
+  pub legacy_string: bool,
 }
 impl Req {
   pub fn to_json(&self) -> Value {
     let mut v = json!({"query": self.q.to_json(), "limit": vcore::idx::BIG_LIMIT, "execution": "bm25", "return_stored": false});
+    if self.legacy_string {
+      if let Q::Qs { parts, fields: None } = &self.q {
+        v["query"] = json!(qs_string(parts));
+      }
+    }
     if let Some(f) = self.fields.as_ref() {
       v["fields"] = json!(f);
     }
